@@ -1,0 +1,16 @@
+//go:build verif
+
+package hrpc
+
+import "github.com/tsuna/gohbase/pb"
+
+// Ghost client code for the deductive verifier in /verif (gowp). Compiled only with the build tag
+// `verif`, never called. Each function composes contracts of real functions so that a property that
+// spans two of them becomes an ordinary postcondition checked against the callees' contracts.
+
+// ghostCellRoundTrip: what appendCellblock writes, cellFromCellBlock reads back (property C10).
+func ghostCellRoundTrip(row []byte, family, qualifier string, value []byte, ts uint64, typ byte,
+	prefix []byte) (*pb.Cell, uint32, error) {
+	cbs := appendCellblock(row, family, qualifier, value, ts, typ, prefix)
+	return cellFromCellBlock(cbs[len(prefix):])
+}
